@@ -240,6 +240,7 @@ func checkC01(r *Run) {
 
 	// E1b
 	c01Grammar(r)
+	c01EncodeTotal(r)
 	r.Exhaustive = true
 	_ = ast.Inspect
 }
@@ -362,4 +363,69 @@ func c01Fields9p(r *Run) {
 			r.Bad("reflection-walk", "fields9p: no reordering", c.Pos(), "fields are reordered")
 		}
 	})
+}
+
+// encode is total on the wire types: the only errors it returns are those of its write steps. A freshly made error
+// inside a typed clause refuses to encode a value of a wire type; that is acceptable only for values the format
+// cannot represent (more than 65535 bytes/elements under a count[2]), i.e. on an edge implying len(x) >= 65536.
+func c01EncodeTotal(r *Run) {
+	p := r.P
+	enc := p.Fn("p9p:(*encoder).encode")
+	if enc == nil {
+		r.Undecided("encode-total", "(*encoder).encode", token.NoPos, "anchor not found")
+		return
+	}
+	n := 0
+	for _, fn := range p.withHelpers(enc, 1) {
+		if fn != enc && (fn.Signature.Recv() == nil || !strings.Contains(shortType(fn.Signature.Recv().Type()), "encoder")) {
+			continue
+		}
+		fa := p.FA(fn)
+		res := fn.Signature.Results()
+		if res.Len() == 0 || !isErrorType(res.At(res.Len()-1).Type()) {
+			continue
+		}
+		for _, ret := range returnsOf(fn) {
+			e := ret.Results[len(ret.Results)-1]
+			if isNilConst(e) {
+				continue
+			}
+			n++
+			key := fmt.Sprintf("%s: error return is a write step's error", fnName(fn))
+			fresh := false
+			for _, alt := range phiAlternatives(e, 3) {
+				switch x := alt.(type) {
+				case *ssa.Extract:
+					if _, ok := x.Tuple.(*ssa.Call); !ok {
+						fresh = true
+					}
+				case *ssa.Call:
+					cn := calleeName(&x.Call)
+					if cn == "fmt.Errorf" || cn == "errors.New" {
+						fresh = true
+					}
+				case *ssa.Const:
+				default:
+					fresh = true // a made-up error value
+				}
+			}
+			if !fresh {
+				r.Ok("encode-total", key, ret.Pos())
+				continue
+			}
+			// a refusal: only for unrepresentable lengths
+			facts := fa.FactsAt(ret)
+			okLen := false
+			for _, f := range facts {
+				for _, a := range f.L.Atoms {
+					if a.Op == "len" && Entails(facts, linConst(65536).Sub(linAtom(a))) {
+						okLen = true
+					}
+				}
+			}
+			r.Check(okLen, "encode-total", fnName(fn)+": a value of a wire type is refused only when the format cannot represent it", ret.Pos(),
+				"encode returns a made-up error for a value the wire format can carry (e.g. a string of exactly 65535 bytes): Marshal fails although Size() counts the message, and the message cannot round-trip")
+		}
+	}
+	r.Floor("encode-total", n, 10, "error returns of the encoder")
 }
